@@ -1,30 +1,331 @@
 import JF.Model.Store
-import Mathlib.Tactic.Common
+import JF.Lemmas.StoreActive
+import JF.Lemmas.PyArith
 /-!
 # C13 — In-states are isolated copies; only commits change the global state
+
+Model: `JF/Model/Store.lean` (reference-level model of `TreeStateHandler`, `TreePhysicalState`,
+`TreeLiftingState` with an explicit heap, plus a client session `Sess`/`Op`/`step`).
+All theorems hold for every scalar type `α` (so for the exact reading `ℚ` and for binary64 alike):
+the property is about identities and copies of objects, never about arithmetic.
+
+Vocabulary (defined in `JF/Lemmas/Store*.lean`):
+* `unitAt g id`    — the unit stored in the global state under identifier `id` (its references);
+* `readAt g h id`  — its *value*: position, velocity, time stamp read through heap `h`, charge, weight;
+* `readGlobal g h` — the values of everything `extract_global_state` shows;
+* `readBranch h b` — the values read through a branch held by a client;
+* `Inv s`          — the isolation invariant of a session; `Reach s` — `s` is reachable from an
+                     initial state by *any* sequence of client operations.
 -/
+set_option linter.unusedSimpArgs false
 namespace JF.C13
 open JF JF.Store
 
 variable {α : Type}
 
-/-- `insert_into_global_state` does not touch any object: the heap is not even an argument. -/
-theorem extractGlobal_heap_irrelevant (g : Global α) (h h' : Heap α) :
-    extractGlobal g h = extractGlobal g h' := by
-  unfold extractGlobal
-  generalize g.roots = rs
-  generalize 0 = n
-  induction rs generalizing n with
+/-- `s` is the state of a client session after some history: any tree (1 or 2 levels, any number
+of roots / children, any setting), any sequence of extract / mutate / insert / extract-active /
+extract-global operations. -/
+def Reach (s : Sess α) : Prop :=
+  ∃ (_ : Div α) (o : Ops α) (levels perRoot : Nat)
+    (roots : List (Option Nat × List α × List (Option Nat × List α))) (ops : List (Op α)),
+    s = run (Sess.init o levels perRoot roots) ops
+
+/-- The isolation invariant holds after every history. -/
+theorem reach_inv {s : Sess α} (hr : Reach s) : Inv s := by
+  obtain ⟨_, o, levels, perRoot, roots, ops, rfl⟩ := hr
+  exact inv_run (inv_init o levels perRoot roots) ops
+
+theorem reach_step {s : Sess α} (hr : Reach s) (op : Op α) : Reach (step s op).1 := by
+  obtain ⟨d, o, levels, perRoot, roots, ops, rfl⟩ := hr
+  refine ⟨d, o, levels, perRoot, roots, ops ++ [op], ?_⟩
+  generalize Sess.init o levels perRoot roots = s0
+  induction ops generalizing s0 with
   | nil => rfl
-  | cons R Rs ih =>
-    simp only [aliasBranches, ih]
-    congr 1
-    simp only [aliasBranch, mkCNode]
-    congr 1
-    generalize R.children = cs
-    generalize 0 = i
-    induction cs generalizing i with
-    | nil => rfl
-    | cons c cs ih2 => simp only [mkChildren, mkCNode, Bool.false_eq_true, if_false]; rw [ih2]
+  | cons a ops ih => exact ih _
+
+/-! ## `extract_shape`, `extract_fresh` -/
+
+/-- **extract_shape.**  A branch handed out for `id` consists of the units with the identifiers
+`branchIds g id` (see `mem_branchIds`: the ancestors of `id`, `id`, all descendants of `id`), in
+preorder, and every unit carries the *current values* of the global state (position, velocity, time
+stamp, charge, weight). -/
+theorem extract_shape {s : Sess α} (hr : Reach s) {id : Ident} {h' : Heap α} {b : Branch α}
+    (he : extract s.g s.h id = .ok (h', b)) :
+    b.units.map (·.id) = branchIds s.g id ∧
+    ∀ u ∈ b.units, some (readUnit h' u) = readAt s.g s.h u.id :=
+  let sp := extract_spec (reach_inv hr).gok he
+  ⟨sp.2.2.1, sp.2.2.2⟩
+
+/-- extraction succeeds exactly for the identifiers that exist in the tree (every other identifier
+raises `IndexError`, and nothing observable has changed then) -/
+theorem extract_ok_iff (g : Global α) (h : Heap α) (id : Ident) :
+    (∃ x, extract g h id = .ok x) ↔ (unitAt g id).isSome = true := by
+  match id with
+  | [] => simp [extract, unitAt, physGet]
+  | [r] =>
+    simp only [extract, unitAt, physGet]
+    cases hR : g.roots[r]? <;> simp
+  | [r, c] =>
+    simp only [extract, unitAt, physGet]
+    cases hR : g.roots[r]? with
+    | none => simp
+    | some R => cases hL : R.children[c]? <;> simp [hL]
+  | r :: _ :: _ :: _ =>
+    simp only [extract, unitAt, physGet]
+    cases hR : g.roots[r]? <;> simp
+
+/-- the branch of a root: the root and all its children -/
+theorem branchIds_root (g : Global α) {r : Nat} {R : PRoot α} (hR : g.roots[r]? = some R) :
+    branchIds g [r] = [r] :: (List.range R.children.length).map (fun i => [r, i]) := by
+  simp [branchIds, hR]
+
+/-- the branch of a leaf: its parent and the leaf -/
+theorem branchIds_leaf (g : Global α) (r c : Nat) : branchIds g [r, c] = [[r], [r, c]] := rfl
+
+/-- **extract_fresh.**  Extraction only allocates: the old heap is a prefix of the new one, and
+every position / velocity / time-stamp object of the branch is a *new* object (`≥ next` before the
+call), all of them pairwise different.  Hence none of them is reachable from the global state or
+from any branch handed out earlier. -/
+theorem extract_fresh {s : Sess α} (hr : Reach s) {id : Ident} {h' : Heap α} {b : Branch α}
+    (he : extract s.g s.h id = .ok (h', b)) :
+    Ext s.h h' ∧ b.refs.Nodup ∧ (∀ r ∈ b.refs, s.h.next ≤ r ∧ r < h'.next) ∧
+    (∀ r ∈ b.refs, r ∉ s.g.refs) ∧ (∀ L ∈ s.live, ∀ r ∈ b.refs, r ∉ L.b.refs) := by
+  have I := reach_inv hr
+  obtain ⟨e, f, _, _⟩ := extract_spec I.gok he
+  refine ⟨e, f.1, f.2, ?_, ?_⟩
+  · intro r hr hg
+    exact Nat.lt_irrefl _ (Nat.lt_of_lt_of_le (I.gok r hg) (f.2 r hr).1)
+  · intro L hL r hr hl
+    exact Nat.lt_irrefl _ (Nat.lt_of_lt_of_le (I.bok L hL r hl) (f.2 r hr).1)
+
+/-! ## `noninterference` -/
+
+theorem readGlobal_congr {g : Global α} {h h' : Heap α} (hf : ∀ r ∈ g.refs, h'.get? r = h.get? r) :
+    readGlobal g h' = readGlobal g h := by
+  have irr : ∀ (Rs : List (PRoot α)) (n : Nat), aliasBranches g.lift h' Rs n = aliasBranches g.lift h Rs n := by
+    intro Rs
+    induction Rs with
+    | nil => intro n; rfl
+    | cons R Rs ih =>
+      intro n
+      simp only [aliasBranches, ih]
+      congr 1
+      simp only [aliasBranch, mkCNode_false]
+      congr 1
+      generalize R.children = cs
+      generalize 0 = i
+      induction cs generalizing i with
+      | nil => rfl
+      | cons c cs ih2 => simp only [mkChildren, mkCNode_false]; rw [ih2]
+  simp only [readGlobal, extractGlobal, irr]
+  apply List.map_congr_left
+  intro b hb
+  exact readBranch_congr (fun r hr => hf r (extractGlobal_refs g h b hb r hr))
+
+/-- **noninterference.**  After any history, changing a position, a velocity or a time stamp
+(in place or by re-binding the field) through a branch that was extracted and not yet inserted
+changes neither the global state (its fields, its identifier-indexed values `readAt`, the snapshot
+`readGlobal`) nor any other live branch (the branch object and every value read through it). -/
+theorem noninterference {s : Sess α} (hr : Reach s) (op : Op α) {b : Nat} {L : Live α}
+    (ht : op.target = some b) (hL : s.live[b]? = some L) (hiso : L.iso = true) :
+    (step s op).1.g = s.g ∧
+    (∀ id, readAt (step s op).1.g (step s op).1.h id = readAt s.g s.h id) ∧
+    readGlobal (step s op).1.g (step s op).1.h = readGlobal s.g s.h ∧
+    ∀ (j : Nat) (L' : Live α), j ≠ b → s.live[j]? = some L' →
+      (step s op).1.live[j]? = some L' ∧ readBranch (step s op).1.h L'.b = readBranch s.h L'.b := by
+  have I := reach_inv hr
+  obtain ⟨hg, hlive, hheap, _⟩ := step_mutation_frame s op ht
+  have hglob : ∀ r ∈ s.g.refs, (step s op).1.h.get? r = s.h.get? r := fun r hrg =>
+    hheap L hL r (I.gok r hrg) (fun hin => (I.iso L (List.mem_of_getElem? hL) hiso).2 r hin hrg)
+  refine ⟨hg, ?_, ?_, ?_⟩
+  · intro id; rw [hg]; exact readAt_congr hglob id
+  · rw [hg]; exact readGlobal_congr hglob
+  · intro j L' hj hL'
+    refine ⟨by rw [hlive j hj]; exact hL', ?_⟩
+    apply readBranch_congr
+    intro r hr'
+    exact hheap L hL r (I.bok L' (List.mem_of_getElem? hL') r hr')
+      (fun hin => I.sep b j L L' (Ne.symm hj) hL hL' hiso r hin hr')
+
+/-! ## only commits change the global state -/
+
+/-- extract / extract-active / extract-global change neither the global state nor any branch
+handed out before. -/
+theorem readonly_ops_unchanged {s : Sess α} (hr : Reach s) (op : Op α) (ht : op.target = none)
+    (hi : op.isInsert = false) :
+    (step s op).1.g = s.g ∧
+    (∀ id, readAt (step s op).1.g (step s op).1.h id = readAt s.g s.h id) ∧
+    readGlobal (step s op).1.g (step s op).1.h = readGlobal s.g s.h ∧
+    ∀ (j : Nat) (L' : Live α), s.live[j]? = some L' →
+      (step s op).1.live[j]? = some L' ∧ readBranch (step s op).1.h L'.b = readBranch s.h L'.b := by
+  have I := reach_inv hr
+  obtain ⟨hg, e, hlive⟩ := step_readonly_frame I op ht hi
+  refine ⟨hg, ?_, ?_, ?_⟩
+  · intro id; rw [hg]; exact readAt_ext I.gok e id
+  · rw [hg]; exact readGlobal_congr (fun r hrg => e.2 r (I.gok r hrg))
+  · intro j L' hL'
+    exact ⟨hlive j L' hL', readBranch_congr (fun r hr' => e.2 r (I.bok L' (List.mem_of_getElem? hL') r hr'))⟩
+
+/-- the discipline of the event handlers: no commit, and mutations only through branches that were
+extracted and not yet inserted -/
+def BetweenCommits (s : Sess α) : List (Op α) → Prop
+  | [] => True
+  | op :: ops =>
+    op.isInsert = false ∧
+    (∀ b, op.target = some b → ∃ L, s.live[b]? = some L ∧ L.iso = true) ∧
+    BetweenCommits (step s op).1 ops
+
+/-- **between_commits_unchanged.**  After any history, any further sequence of operations that
+contains no `insert` and mutates only not-yet-inserted branches leaves the global state as it is. -/
+theorem between_commits_unchanged {s : Sess α} (hr : Reach s) (ops : List (Op α)) (hd : BetweenCommits s ops) :
+    (run s ops).g = s.g ∧ (∀ id, readAt (run s ops).g (run s ops).h id = readAt s.g s.h id) ∧
+    readGlobal (run s ops).g (run s ops).h = readGlobal s.g s.h := by
+  induction ops generalizing s with
+  | nil => exact ⟨rfl, fun _ => rfl, rfl⟩
+  | cons op ops ih =>
+    obtain ⟨hi, hm, hrest⟩ := hd
+    obtain ⟨g1, a1, r1⟩ := ih (reach_step hr op) hrest
+    have one : (step s op).1.g = s.g ∧ (∀ id, readAt (step s op).1.g (step s op).1.h id = readAt s.g s.h id) ∧
+        readGlobal (step s op).1.g (step s op).1.h = readGlobal s.g s.h := by
+      cases ht : op.target with
+      | none =>
+        obtain ⟨x, y, z, _⟩ := readonly_ops_unchanged hr op ht hi
+        exact ⟨x, y, z⟩
+      | some b =>
+        obtain ⟨L, hL, hiso⟩ := hm b ht
+        obtain ⟨x, y, z, _⟩ := noninterference hr op ht hL hiso
+        exact ⟨x, y, z⟩
+    exact ⟨g1.trans one.1, fun id => (a1 id).trans (one.2.1 id), r1.trans one.2.2⟩
+
+/-! ## `insert_read` -/
+
+/-- **insert_read.**  A successful `insert_into_global_state` of the branches `bs` touches no
+object (the heap is the same, so everything read through any branch is the same); afterwards the
+global state reads, under the identifier of every committed unit `u` (the last one, should an
+identifier occur twice), exactly the committed position, velocity and time stamp (charge and weight
+are those of the node), and every identifier that does not occur in `bs` reads as before. -/
+theorem insert_read {s : Sess α} {sel : List (Nat × Nat)} {bs : List (Branch α)}
+    (hsel : selBranches s.live sel = some bs) (hok : (step s (.insert sel)).2 = none) :
+    (step s (.insert sel)).1.h = s.h ∧
+    (∀ id, (∀ u ∈ bs.flatMap Branch.units, u.id ≠ id) →
+      readAt (step s (.insert sel)).1.g (step s (.insert sel)).1.h id = readAt s.g s.h id) ∧
+    (∀ pre u post, bs.flatMap Branch.units = pre ++ u :: post → (∀ w ∈ post, w.id ≠ u.id) →
+      ∃ o, unitAt s.g u.id = some o ∧
+        readAt (step s (.insert sel)).1.g (step s (.insert sel)).1.h u.id = some (readUnit s.h (u.over o))) := by
+  simp only [step, hsel] at hok ⊢
+  have hins : insertUnits s.g (bs.flatMap Branch.units) = ((Store.insert s.g bs).1, none) := by
+    simp only [Store.insert] at hok ⊢
+    rw [← hok]
+  refine ⟨trivial, ?_, ?_⟩
+  · intro id hn
+    simp only [readAt, unitAt_insertUnits_other hins hn]
+  · intro pre u post hsplit hn
+    rw [hsplit] at hins
+    obtain ⟨o, ho, hnew⟩ := unitAt_insertUnits_last hins hn
+    exact ⟨o, ho, by simp only [readAt, hnew, Option.map_some]⟩
+
+/-- what is read back is literally the committed unit: same position, velocity and time-stamp
+objects, hence the same values -/
+theorem over_reads (h : Heap α) (u o : CUnit α) :
+    (readUnit h (u.over o)).pos = (readUnit h u).pos ∧ (readUnit h (u.over o)).vel = (readUnit h u).vel ∧
+    (readUnit h (u.over o)).ts = (readUnit h u).ts ∧ (readUnit h (u.over o)).id = u.id :=
+  ⟨rfl, rfl, rfl, rfl⟩
+
+/-! ## `active_spec` -/
+
+/-- **active_spec (two levels).**  After any history of a two-level system the identifiers handed
+to `extract_active_global_state` are exactly: for every lifted composite object `[r]`, the object
+itself if all its `perRoot` point masses are lifted, otherwise its lifted point masses.  ("lifted" =
+has a velocity in the global lifting state.) -/
+theorem active_spec [Div α] (o : Ops α) (perRoot : Nat)
+    (roots : List (Option Nat × List α × List (Option Nat × List α))) (ops : List (Op α)) (id : Ident) :
+    let l := (run (Sess.init o 2 perRoot roots) ops).g.lift
+    id ∈ l.independent ↔ ∃ r, l.isLifted [r] ∧
+      ((id = [r] ∧ ∀ i, i < l.perRoot → l.isLifted [r, i]) ∨
+       ((¬ ∀ i, i < l.perRoot → l.isLifted [r, i]) ∧ ∃ i, i < l.perRoot ∧ id = [r, i] ∧ l.isLifted [r, i])) :=
+  mem_independent (liftwf_run (liftwf_init o perRoot roots) ops) id
+
+/-- **active_spec (one level).**  With one node level every lifted unit is independent. -/
+theorem active_spec_one_level (l : Lifting) (h1 : l.levels = 1) (id : Ident) :
+    id ∈ l.independent ↔ l.isLifted id := mem_independent_one h1 id
+
+/-- `extract_active_global_state` hands out one branch per independent identifier (in that order),
+each with the shape and the current values `extract_shape` describes, all objects new and pairwise
+different. -/
+theorem extractActive_branches {s : Sess α} (hr : Reach s) {h' : Heap α} {bs : List (Branch α)}
+    (he : extractActive s.g s.h = .ok (h', bs)) :
+    Ext s.h h' ∧ (bs.flatMap Branch.refs).Nodup ∧ (∀ r ∈ bs.flatMap Branch.refs, s.h.next ≤ r) ∧
+    bs.length = s.g.lift.independent.length ∧
+    ∀ (k : Nat) (id : Ident) (b : Branch α), s.g.lift.independent[k]? = some id → bs[k]? = some b →
+      b.units.map (·.id) = branchIds s.g id ∧ ∀ u ∈ b.units, some (readUnit h' u) = readAt s.g s.h u.id := by
+  obtain ⟨e, f, len, sp⟩ := extractMany_spec _ (reach_inv hr).gok he
+  exact ⟨e, f.1, fun r hr => (f.2 r hr).1, len, sp⟩
+
+/-! ## Non-vacuity: a concrete two-dipole session (exact reading, `α = ℚ`) meets the hypotheses -/
+
+section examples
+
+/-- two dipoles in one dimension -/
+def exInit : Sess ℚ :=
+  Sess.init Ops.rat 2 2 [(none, [5], [(some 0, [0]), (some 1, [1])]), (none, [6], [(some 2, [2]), (some 3, [3])])]
+
+/-- extract leaf (0,1); give it and its root a velocity and a time stamp; commit; extract root 0
+again -/
+def exOps : List (Op ℚ) :=
+  [.extract [0, 1], .newVel 0 1 (some [1]), .newTs 0 1 (some (0, 4)), .newVel 0 0 (some [8]),
+   .newTs 0 0 (some (0, 4)), .insert [(0, 0)], .extract [0]]
+
+def exS : Sess ℚ := run exInit exOps
+
+theorem exReach : Reach exS := ⟨inferInstance, Ops.rat, 2, 2, _, exOps, rfl⟩
+
+/-- `extract_shape` / `extract_fresh`: a reachable state and a successful extraction of a whole
+composite object (root + 2 children) whose root is lifted -/
+example : ∃ (s : Sess ℚ) (id : Ident) (x : Heap ℚ × Branch ℚ), Reach s ∧ extract s.g s.h id = .ok x ∧
+    x.2.children.length = 2 ∧ x.2.root.vel.isSome = true :=
+  ⟨exS, [0], _, exReach, rfl, by decide, by decide⟩
+
+/-- `noninterference`: live branch 1 of `exS` (extracted after the commit, never inserted) is
+isolated, and all six kinds of mutation target it -/
+example : ∃ L, exS.live[1]? = some L ∧ L.iso = true ∧
+    (Op.setPos 1 2 0 (7 : ℚ)).target = some 1 ∧ (Op.tsUpdate 1 0 (3 : ℚ) 0).target = some 1 ∧
+    (step exS (.setPos 1 2 0 7)).2 = none ∧ (step exS (.tsUpdate 1 0 3 0)).2 = none ∧
+    (step exS (.setVel 1 2 0 9)).2 = none :=
+  ⟨_, rfl, by decide, rfl, rfl, by decide, by decide, by decide⟩
+
+/-- the mutation really happens (so "nothing else changes" is not vacuous): the value read through
+the mutated branch differs afterwards -/
+example : ((step exS (.setPos 1 2 0 7)).1.live[1]?.map fun L => (readBranch (step exS (.setPos 1 2 0 7)).1.h L.b).map
+      fun v => match v.pos with | some (.vec l) => l | _ => []) = some [[5], [0], [7]] ∧
+    (exS.live[1]?.map fun L => (readBranch exS.h L.b).map
+      fun v => match v.pos with | some (.vec l) => l | _ => []) = some [[5], [0], [1]] := by decide
+
+/-- `between_commits_unchanged`: a sequence of extractions and mutations of not-yet-inserted
+branches satisfies the discipline -/
+example : BetweenCommits exS [.extract [1, 0], .setPos 1 2 0 7, .newVel 1 1 none, .tsUpdate 1 0 3 0,
+    .newPos 2 0 [4], .global, .active] := by
+  simp only [BetweenCommits, Op.isInsert, Op.target, true_and, and_true, Option.some.injEq, forall_eq',
+    reduceCtorEq, false_implies, implies_true]
+  decide
+
+/-- `insert_read`: the commit in `exOps` (branch 0 after the five mutations) is a successful
+insert of a two-unit branch -/
+example : ∃ bs, selBranches (run exInit (exOps.take 5)).live [(0, 0)] = some bs ∧
+    (step (run exInit (exOps.take 5)) (.insert [(0, 0)])).2 = none ∧ (bs.flatMap Branch.units).length = 2 :=
+  ⟨_, rfl, by decide, by decide⟩
+
+/-- `active_spec`: in `exS` the independent identifier is the leaf `(0,1)` (root 0 is lifted, only
+one of its two point masses is) -/
+example : exS.g.lift.independent = [[0, 1]] := by decide
+
+/-- … and after also lifting leaf `(0,0)` it is the composite object `(0,)` -/
+example : (run exS [.extract [0, 0], .newVel 2 1 (some [1]), .newTs 2 1 (some (0, 4)), .insert [(2, 1)]]).g.lift.independent
+    = [[0]] := by decide
+
+/-- `extractActive_branches`: the active extraction of `exS` succeeds with one branch -/
+example : ∃ x, extractActive exS.g exS.h = .ok x ∧ x.2.length = 1 := ⟨_, rfl, by decide⟩
+
+end examples
 
 end JF.C13
